@@ -24,6 +24,8 @@ func main() {
 		os.Exit(cmdDump(os.Args[2:]))
 	case "replay":
 		os.Exit(cmdReplay(os.Args[2:]))
+	case "params":
+		os.Exit(cmdParams(os.Args[2:]))
 	default:
 		fmt.Fprintln(os.Stderr, "unknown command", os.Args[1])
 		os.Exit(2)
@@ -207,13 +209,41 @@ func cmdCheck(args []string) int {
 	}
 	defer os.RemoveAll(tmp)
 
+	// verify: generate the obligations of one function; when the loop invariants name a local the function no longer
+	// has (a harmless rename), try the function's other locals in its place (rebind.go)
+	verify := func(fc *FuncContract) *FuncResult {
+		res := e.verifyFunc(fc)
+		if res.Status == "ok" || res.UnknownIdent == "" {
+			return res
+		}
+		accept := func(r2 *FuncResult) bool {
+			var os2 []*Obligation
+			for _, o := range r2.Obligations {
+				if (len(o.Tags) > 0 && !hasTag(o.Tags, *prop)) || o.Kind == "reach" || !o.Claimed || o.Kind == "known-finding" {
+					continue
+				}
+				os2 = append(os2, o)
+			}
+			solveAll(os2, tmp, timeout, 16, false)
+			for _, o := range os2 {
+				if !(o.Result == o.Expect || (o.Expect == "sat" && (o.Result == "unknown" || o.Result == "timeout"))) {
+					return false
+				}
+			}
+			return true
+		}
+		if r2 := e.rebind(fc, res, accept); r2 != nil {
+			return r2
+		}
+		return res
+	}
 	var results []*FuncResult
 	for _, cf := range e.files {
 		for _, fc := range cf.Funcs {
 			if fc.Extern || !servesProperty(fc, *prop) {
 				continue
 			}
-			results = append(results, e.verifyFunc(fc))
+			results = append(results, verify(fc))
 		}
 		for _, l := range cf.Lemmas {
 			if hasTag(l.Tags, *prop) {
@@ -252,7 +282,7 @@ func cmdCheck(args []string) int {
 			}
 			verified[fc] = true
 			if untagged(fc) {
-				results = append(results, e.verifyFunc(fc))
+				results = append(results, verify(fc))
 			} else {
 				reliedOn = append(reliedOn, fc.Key+" (verified by the checks of "+strings.Join(tagsOf(fc), ",")+")")
 			}
@@ -530,5 +560,37 @@ func cmdReplay(args []string) int {
 		return 1
 	}
 	fmt.Println("replay: the recorded behaviour is not reproduced on this tree")
+	return 0
+}
+
+// cmdParams lists, for every in-repo function contract without a `params` clause, the parameter names of the function as
+// the source has them now (receiver first), as "file:line: params a, b, c". tools/pin_params.py writes them into the
+// contract files, which makes the names in requires / ensures positional: a later rename of a parameter in the source
+// does not change what the contract says.
+func cmdParams(args []string) int {
+	fs := flag.NewFlagSet("params", flag.ExitOnError)
+	repo := fs.String("repo", "/repo", "")
+	verif := fs.String("verif", "/verif", "")
+	fs.Parse(args)
+	e, err := setupEngine(*repo, *verif, nil)
+	if err != nil {
+		fmt.Fprintln(os.Stderr, "fvc: load failed:", err)
+		return 2
+	}
+	for _, cf := range e.files {
+		for _, fc := range cf.Funcs {
+			if fc.Extern || len(fc.Params) > 0 || fc.PkgPath == "" {
+				continue
+			}
+			fn := e.findFunc(fc.PkgPath, fc.Key)
+			if fn == nil {
+				continue
+			}
+			if len(fn.Params) == 0 {
+				continue
+			}
+			fmt.Printf("%s:%d: params %s\n", fc.File, fc.Line, strings.Join(paramNames(fn.Signature, nil), ", "))
+		}
+	}
 	return 0
 }
